@@ -39,6 +39,9 @@ C05_THOROUGH = ([h for h in C05_QUICK if "var8" not in h["harness"]]
                 + [_h(f"c05::c05_var200__{t}", timeout=3600, mem_gb=9) for t in I8_TYPES])
 C04_QUICK = ([_h(f"c04::c04_table__{t}") for t in I8_TYPES] + [_h(f"c04::c04_check2__{t}") for t in I8_TYPES]
              + [_h(f"c04::c04_check3__{t}") for t in I8_TYPES])
+FLOAT_TYPES = ["Phif64", "Phif32", "Tanhf64", "Tanhf32", "Minstarapproxf64", "Minstarapproxf32", "Aminstarf64", "Aminstarf32"]
+C04_QUICK = C04_QUICK + [_h(f"c04f::c04f_check{d}__{t}", bound="float type: count" + ("" if t.startswith("Aminstar") else ", sign") + (", magnitude" if t.startswith("Minstar") else "") + " under axiomatised tanh/ln/atanh/exp/ln_1p, |x| <= 1e30")
+                         for t in FLOAT_TYPES for d in (2, 3)]
 C04_THOROUGH = C04_QUICK + [_h(f"c04::c04_check4__{t}", bound="degree 4 (generic clauses only)", timeout=1800) for t in I8_TYPES]
 C18_QUICK = ([_h(f"c18::c18_print_parse__{n}", mem_gb=4) for n in NAMES] + [_h(f"c18::c18_clap__{n}", mem_gb=3) for n in NAMES]
              + [_h(f"c18::c18_type__{n}", mem_gb=4) for n in NAMES] + [_h("c18::c18_reject_nonmembers_fromstr", timeout=1800, mem_gb=8)])
@@ -55,14 +58,18 @@ C01_KANI_QUICK = [_h(f"c01::c01_h1__{n}", timeout=2400, mem_gb=5, bound=_DEC_BOU
 C01_KANI_THOROUGH = ([_h(f"c01::c01_h1__{n}", timeout=3600, mem_gb=5, bound=_DEC_BOUND) for n in MSA_FL + MSA_HL]
                      + [_h(f"c01::c01_h2__{n}", timeout=3600, mem_gb=6, bound=_DEC_BOUND) for n in ["Minstarapproxi8", "HLMinstarapproxi8"]])
 _HIST_BOUND = "BOUNDED: two-call histories on the fixed 2x3 matrix, limits (first, second) as named, all f64 LLRs with |x| <= 1e30"
+C10_SCRATCH = [_h(f"c04f::c10_scratch{l}__{t}", timeout=1800, bound="arithmetic scratch buffers, SURROGATE transcendental functions (under abstraction), degrees 3 then 2, |x| <= 100")
+               for t in FLOAT_TYPES if not t.startswith("Phif") for l in ("", "_layered")]
 C10_KANI_QUICK = [_h(f"c01::{h}", timeout=3000, mem_gb=5, bound=_HIST_BOUND) for h in
-                  ["c10_h1_1_0__Minstarapproxi8", "c10_h1_1_1__Minstarapproxi8", "c10_h1_1_1__HLMinstarapproxi8"]]
-C10_KANI_THOROUGH = [_h(f"c01::c10_h1_{p}__{n}", timeout=3600, mem_gb=5, bound=_HIST_BOUND) for n in MSA_FL + MSA_HL for p in ["1_0", "1_1"]]
-C03_KANI = [_h(f"c03::{h}", timeout=3000, mem_gb=6,
-               bound="BOUNDED: checker-supplied exact integer min-sum arithmetic, integer LLRs in [-7,7], limit <= 2, fixed matrix")
-            for h in ["c03_flooding_h1", "c03_layered_h1", "c03_layered_h2"]]
-C03_KANI_THOROUGH = C03_KANI + [_h("c03::c03_flooding_h2", timeout=7200, mem_gb=8,
-                                   bound="BOUNDED: as above on the 3x4 matrix")]
+                  ["c10_h1_1_0__Minstarapproxi8", "c10_h1_1_1__Minstarapproxi8", "c10_h1_1_1__HLMinstarapproxi8"]] + C10_SCRATCH
+C10_KANI_THOROUGH = C10_SCRATCH + [_h(f"c01::c10_h1_{p}__{n}", timeout=3600, mem_gb=5, bound=_HIST_BOUND) for n in MSA_FL + MSA_HL for p in ["1_0", "1_1"]]
+_C03_B = "BOUNDED: checker-supplied exact integer min-sum arithmetic, integer LLRs in [-7,7], fixed matrix, limit <= "
+C03_KANI = [_h("c03::c03_flooding_h1_l1", timeout=2400, mem_gb=6, bound=_C03_B + "1 (2x3)"),
+            _h("c03::c03_layered_h1", timeout=2400, mem_gb=6, bound=_C03_B + "2 (2x3)"),
+            _h("c03::c03_layered_h2_l1", timeout=2400, mem_gb=6, bound=_C03_B + "1 (3x4)")]
+C03_KANI_THOROUGH = [_h(f"c03::{h}", timeout=7200, mem_gb=8, bound=_C03_B + "2")
+                     for h in ["c03_flooding_h1", "c03_layered_h1", "c03_layered_h2"]]
+# c03_flooding_h2 (3x4 matrix, limit 2) did not finish in 50 min: not registered
 C17_KANI = [_h(f"c17::{n}", mem_gb=5, timeout=1500,
                bound="BOUNDED stand-in: one concrete scenario on a fixed 2x3 or 3x2 matrix; never counted as proved")
             for n in ["c17_views_fixed", "c17_set_row_wide_repeat", "c17_set_row_wide_other", "c17_set_row_tall_empty",
